@@ -68,6 +68,8 @@ type Scenario struct {
 	HasCB       bool     `json:"has_cb,omitempty"`       // Content-Base header present
 	ContentBase string   `json:"content_base,omitempty"` // its value
 	SessControl string   `json:"sess_control,omitempty"` // session-level a=control ("" = none)
+	// LateAuth (camera workload with user-info): DESCRIBE is open, the first challenge comes with SETUP.
+	LateAuth bool `json:"late_auth,omitempty"`
 	OtherHost   bool     `json:"other_host,omitempty"`   // the base (Content-Base / session control) names another host
 }
 
